@@ -275,8 +275,45 @@ def run(ctx, anchors=None):
                 if isinstance(t, tuple) and t[0] == "ap" and t[1] == "<" and ladders.symx.is_const(t[2]) and not v and t[2][1] >= 0x1000:
                     lim.add(t[2][1])
     ctx.inst(lim == {mx}, "R13.5", "reader-size-limit", rf.loc(), "with range_check every returned size is <= MAX_SIZE (%s)" % mx, "with range_check the returned size is bounded by %s; MAX_SIZE is %s" % (sorted(lim), mx))
+    # ---- R13.6 conversions between the immutable and the mutable transaction copy every serialised field. tap parses a
+    # transaction, converts it (CMutableTransaction(const CTransaction&)), edits one witness and serialises it again: a field the
+    # converting constructor leaves at its default is lost from the output. Decided on the G-SYM terms of each converting
+    # constructor: this.F == src.F for every data member F the two classes share (the members the serialiser streams).
+    ctx.rule("R13.6", "converting constructors CTransaction <-> CMutableTransaction copy every shared data member")
+    recs = ("CTransaction", "CMutableTransaction")
+    shared = [x for x in fb.record_fields(recs[0]) if x in set(fb.record_fields(recs[1]))]
+    if len(shared) < 4:
+        raise AnalysisBroken("R13.6: CTransaction and CMutableTransaction share only %s" % shared)
+    nconv = 0
+    for f in fb.funcs.values():
+        if f.rec in recs and f.short == f.rec and f.body is not None and len(f.params) == 1:
+            pty = (f.params[0].get("ty") or "")
+            other = recs[1] if f.rec == recs[0] else recs[0]
+            if other not in pty.replace("const", "").replace("&", "").split():
+                continue
+            nconv += 1
+            ctx.site()
+            X = symx.Explorer(prog, inline=lambda fn, n: False, transparent=lambda n: True)
+            try:
+                outs = X.explore(f, this=("a", "this"), params={f.params[0]["n"]: ("a", "src")})
+            except symx.Unsupported as e:
+                raise AnalysisBroken("R13.6: %s: %s" % (f.name, e))
+            miss = []
+            for o in outs:
+                for fld in shared:
+                    got = o.heap.get((("a", "this"), fld))
+                    if got != ("f", ("a", "src"), fld):
+                        miss.append((fld, symx.show(got) if got is not None else "its default"))
+            ctx.inst(not miss, "R13.6", "copies-all-fields:%s(%s)" % (f.rec, pty), f.loc(),
+                     "%s(%s) initialises %s from the same members of its argument" % (f.rec, pty, ", ".join(shared)),
+                     "%s(%s) leaves %s at %s instead of copying it from its argument: a transaction converted and serialised again loses that field" %
+                     ((f.rec, pty, miss[0][0], miss[0][1]) if miss else (f.rec, pty, "", "")))
+    ctx.floor("R13.6", nconv, 2, "converting constructors between CTransaction and CMutableTransaction")
+
 
 MUTANTS = [
+    dict(name="conversion-drops-locktime", file="primitives/transaction.cpp", find="CMutableTransaction::CMutableTransaction(const CTransaction& tx) : vin(tx.vin), vout(tx.vout), nVersion(tx.nVersion), nLockTime(tx.nLockTime) {}", replace="CMutableTransaction::CMutableTransaction(const CTransaction& tx) : vin(tx.vin), vout(tx.vout), nVersion(tx.nVersion), nLockTime(0) {}", expect=["R13.6:copies-all-fields:CMutableTransaction"]),
+    dict(name="conversion-swaps-version-and-locktime", file="primitives/transaction.cpp", find="CTransaction::CTransaction(const CMutableTransaction& tx) : vin(tx.vin), vout(tx.vout), nVersion(tx.nVersion), nLockTime(tx.nLockTime)", replace="CTransaction::CTransaction(const CMutableTransaction& tx) : vin(tx.vin), vout(tx.vout), nVersion(tx.nLockTime), nLockTime(tx.nVersion)", expect=["R13.6:copies-all-fields:CTransaction"]),
     dict(name="writer-vout-before-vin", file="primitives/transaction.h", find="    s << tx.vin;\n    s << tx.vout;\n    if (flags & 1) {", replace="    s << tx.vout;\n    s << tx.vin;\n    if (flags & 1) {", expect=["R13.1:mirror", "R13.1:format"]),
     dict(name="reader-skips-locktime-order", file="primitives/transaction.h", find="            s >> tx.vin;\n            s >> tx.vout;\n        }\n    } else {", replace="            s >> tx.vout;\n            s >> tx.vin;\n        }\n    } else {", expect=["R13.1:mirror:extended"]),
     dict(name="superfluous-last-input-only", file="primitives/transaction.h",
